@@ -71,7 +71,7 @@ def loop_events(rec):
         elif e['ev'] == 'BatchExtract':
             matched = [ids[s] for s in allstr if any(_match(r, s) for r in e['rex'])]
             out.append({'tid': tid, 'ev': 'BatchExtract', 'working': [ids[s] for s in e['working'] if s in ids],
-                        'matched': matched, 'nrex': len(e['rex'])})
+                        'matched': matched, 'nrex': len(e['rex']), 'rextexts': list(e['rex'])})
         elif e['ev'] == 'Restore' and i == last_restore and seeded:
             out.append({'tid': tid, 'ev': 'Restore'})
     out.append({'tid': tid, 'ev': 'Done'})
